@@ -2108,6 +2108,13 @@ impl<'b, 'gc> ExecuteContext<'b, 'gc> {
 
             debug_instruction(&self.stack, instruction_index, instr);
 
+            #[cfg(gluon_verif)]
+            crate::verif::on_instr(
+                self.stack.len() as usize,
+                function.max_stack_size as usize,
+                self.stack.stack().len() as usize,
+            );
+
             if !self.hook.flags.is_empty() && self.hook.flags.contains(HookFlags::LINE_FLAG) {
                 ready!(self.run_hook(&function, instruction_index))?;
             }
